@@ -250,6 +250,7 @@ func GenConfig(t *rapid.T, f Focus) Config {
 	}
 	if f.Prop == "C09" && pct(t, "reactive_module", 30) {
 		c.Reactive = true
+		c.ReactSiblings = pct(t, "reactive_module_kills_siblings", 50)
 	}
 	if f.Prop == "C09" && pct(t, "reacting_in_response_callback", 25) {
 		c.ReactResp = pick(t, "react_resp", []string{"kill", "pause"})
@@ -911,6 +912,9 @@ func (g *GenState) GenPrelude(t *rapid.T) []Action {
 		return g.twoCoinPrelude(t)
 	}
 	variant := pick(t, "pre_variant", []string{"standard", "standard", "standard", "refund", "contention", "lastbatch", "standard", "module", "earlyanswer"})
+	if g.Cfg.ReactSiblings && pct(t, "pre_siblings", 70) {
+		variant = "siblings"
+	}
 	if ms := g.Cfg.ModSvc; ms != nil && ms.Provider != hx(rep(0x5d, 20)) && pct(t, "pre_twins", 50) {
 		return g.twinEarnersPrelude(t)
 	}
@@ -1044,6 +1048,25 @@ func (g *GenState) GenPrelude(t *rapid.T) []Action {
 			acts = append(acts, Action{Kind: KUpdateCtx, Signer: consumer, CtxID: hx(rep(0x11, 40)), CtxRef: &zero, Freq: uint64(timeout)})
 		case "kill":
 			acts = append(acts, Action{Kind: KKill, Signer: consumer, CtxID: hx(rep(0x11, 40)), CtxRef: &zero})
+		}
+		acts = append(acts, endBlock())
+	case "siblings":
+		// several repeated contexts of one module come due in the same block; the consumer of one of them
+		// is the poorest account (it often cannot pay), the others can
+		poor := Signers[2]
+		for _, sg := range Signers[2:] {
+			if g.Cfg.Funding[sg] < g.Cfg.Funding[poor] {
+				poor = sg
+			}
+		}
+		consumers := pick(t, "pre_sibling_order", [][]string{{poor, Signers[0]}, {Signers[0], poor}, {Signers[1], poor, Signers[0]}, {poor, Signers[1], poor}})
+		for _, cns := range consumers {
+			call := mkCall(cns, provs)
+			call.Kind, call.Repeated, call.FeeCap = KModCreate, true, i64(1e9)
+			call.Freq = uint64(timeout) + uint64(pick(t, "pre_freq_extra3", []int{0, 1}))
+			call.Total = -1
+			call.Threshold = 1
+			acts = append(acts, call)
 		}
 		acts = append(acts, endBlock())
 	case "module":
